@@ -215,4 +215,9 @@ theorem C12_source_is_empty : DEvo.Generated.diffIsEmpty = "and" := by decide
 theorem C12_cex_de_morgan :
     (fun (changedEmpty deletedEmpty : Bool) => !(!deletedEmpty && !changedEmpty)) false true = true := by decide
 
+/-- the gate judges the sequence the optimiser hands on; a duplicated mutation reaches it only if the
+optimiser's set of removed mutations goes by identity (`C03_filter_by_identity`), which is what the
+source says (read by the translator on every run) -/
+theorem C12_source_hash_identity : DEvo.Generated.mutationHashById = true := by decide
+
 end DEvo.Props.C12
